@@ -78,6 +78,14 @@ impl Context {
         }
     }
 
+    /// Leaves every SUB / FUNCTION call (and every pending collection of arguments),
+    /// so that the context of the main module is the current one.
+    pub fn unwind_to_main_module(&mut self) {
+        while self.states.len() > 1 {
+            self.do_pop();
+        }
+    }
+
     pub fn push_error_handler_context(&mut self) {
         self.drop_argument_states();
         self.do_push_existing(0, false);
